@@ -1036,6 +1036,224 @@ Proof.
   destruct (Bt k Hkt) as [_ A1]. destruct (Bu k Hku) as [_ A2]. congruence.
 Qed.
 
+
+(* --- erasure of the specification ghosts (l_abs, l_alatch, t_lin, linbad, embad) --- *)
+Definition er_l (r : lrec) : lrec :=
+  {| l_head := l_head r; l_lock := l_lock r; l_sself := l_sself r; l_lself := l_lself r;
+     l_abs := []; l_alatch := false |}.
+Definition er_t (th : thread) : thread := {| prog := prog th; tpc := tpc th; t_lin := None |}.
+Definition erase (s : st) : st :=
+  {| nodes := nodes s; lists := map er_l (lists s); thr := map er_t (thr s);
+     uaf := uaf s; crash := crash s; linbad := false; embad := false |}.
+
+Lemma map_set_nth {A B} (g : A -> B) n x l : map g (set_nth n x l) = set_nth n (g x) (map g l).
+Proof. revert n; induction l; intros [|n]; simpl; auto. now rewrite IHl. Qed.
+Lemma map_nth_d {A B} (g : A -> B) n l d : nth n (map g l) (g d) = g (nth n l d).
+Proof. apply map_nth. Qed.
+
+Lemma erase_idem s : erase (erase s) = erase s.
+Proof.
+  unfold erase; simpl. f_equal; rewrite map_map; apply map_ext; intros []; reflexivity.
+Qed.
+Lemma node_erase s n : node (erase s) n = node s n.
+Proof. reflexivity. Qed.
+Lemma lst_erase s l : lst (erase s) l = er_l (lst s l).
+Proof. unfold lst, erase; simpl. change lnil with (er_l lnil). apply map_nth. Qed.
+Lemma cur_erase s t : cur (erase s) t = er_t (cur s t).
+Proof. unfold cur, erase; simpl. change tnil with (er_t tnil). apply map_nth. Qed.
+Lemma link_val_erase s k : link_val (erase s) k = link_val s k.
+Proof. destruct k; simpl; [now rewrite lst_erase|reflexivity]. Qed.
+Lemma link_lock_erase s k : link_lock (erase s) k = link_lock s k.
+Proof. destruct k; simpl; [now rewrite lst_erase|reflexivity]. Qed.
+Lemma is_locked_erase s k : is_locked (erase s) k = is_locked s k.
+Proof. unfold is_locked. now rewrite link_lock_erase. Qed.
+Lemma get_self_erase s x : get_self (erase s) x = get_self s x.
+Proof. destruct x; simpl; try reflexivity; now rewrite lst_erase. Qed.
+Lemma valid_link_erase s k : valid_link (erase s) k = valid_link s k.
+Proof. destruct k; simpl; [now rewrite map_length|reflexivity]. Qed.
+Lemma valid_node_erase s n : valid_node (erase s) n = valid_node s n.
+Proof. reflexivity. Qed.
+Lemma fresh_erase s n : fresh (erase s) n = fresh s n.
+Proof. reflexivity. Qed.
+
+(* physical transformers commute with erase *)
+Definition lphys (f : lrec -> lrec) : Prop := forall r, er_l (f r) = f (er_l r).
+Lemma erase_upd_node s n f : erase (upd_node s n f) = upd_node (erase s) n f.
+Proof. reflexivity. Qed.
+Lemma erase_upd_list s l f : lphys f -> erase (upd_list s l f) = upd_list (erase s) l f.
+Proof.
+  intros H. unfold upd_list, with_lists, erase; simpl. f_equal.
+  rewrite map_set_nth, H. f_equal. fold (lst s l). unfold lst. simpl.
+  change lnil with (er_l lnil) at 2. now rewrite map_nth.
+Qed.
+Lemma lphys_head v : lphys (lr_head v). Proof. intros r; reflexivity. Qed.
+Lemma lphys_lock v : lphys (lr_lock v). Proof. intros r; reflexivity. Qed.
+Lemma lphys_sself v : lphys (lr_sself v). Proof. intros r; reflexivity. Qed.
+Lemma lphys_lself v : lphys (lr_lself v). Proof. intros r; reflexivity. Qed.
+#[local] Hint Resolve lphys_head lphys_lock lphys_sself lphys_lself : keep.
+Lemma erase_set_link_val s k v : erase (set_link_val s k v) = set_link_val (erase s) k v.
+Proof. destruct k; simpl; [apply erase_upd_list; auto with keep|reflexivity]. Qed.
+Lemma erase_set_link_lock s k o : erase (set_link_lock s k o) = set_link_lock (erase s) k o.
+Proof. destruct k; simpl; [apply erase_upd_list; auto with keep|reflexivity]. Qed.
+Lemma erase_unlock s k v : erase (unlock s k v) = unlock (erase s) k v.
+Proof. unfold unlock. now rewrite erase_set_link_lock, erase_set_link_val. Qed.
+Lemma erase_set_self s x v : erase (set_self s x v) = set_self (erase s) x v.
+Proof. destruct x; simpl; try reflexivity; apply erase_upd_list; auto with keep. Qed.
+Lemma erase_with_uaf s b : erase (with_uaf s b) = with_uaf (erase s) b. Proof. reflexivity. Qed.
+Lemma erase_with_crash s b : erase (with_crash s b) = with_crash (erase s) b. Proof. reflexivity. Qed.
+Lemma erase_with_linbad s b : erase (with_linbad s b) = erase s. Proof. reflexivity. Qed.
+Lemma erase_with_embad s b : erase (with_embad s b) = erase s. Proof. reflexivity. Qed.
+Lemma erase_touch_node o m s : erase (touch_node o m s) = touch_node o m (erase s).
+Proof.
+  unfold touch_node. rewrite node_erase. destruct (n_freed (node s m)); [|reflexivity].
+  destruct o as [a|]; [destruct (Nat.eqb a m)|]; reflexivity.
+Qed.
+Lemma erase_touch_link o k s : erase (touch_link o k s) = touch_link o k (erase s).
+Proof. destruct k; simpl; [reflexivity|apply erase_touch_node]. Qed.
+Lemma erase_touch_obj o x s : erase (touch_obj o x s) = touch_obj o x (erase s).
+Proof. destruct x; simpl; try reflexivity; apply erase_touch_node. Qed.
+
+(* thread transformers *)
+Lemma erase_set_thread s t th : erase (set_thread s t th) = set_thread (erase s) t (er_t th).
+Proof. unfold set_thread, with_thr, erase; simpl. f_equal. apply map_set_nth. Qed.
+Lemma erase_set_pc s t p : erase (set_pc s t p) = set_pc (erase s) t p.
+Proof. unfold set_pc. rewrite erase_set_thread, cur_erase. reflexivity. Qed.
+Lemma erase_set_prog s t r : erase (set_prog s t r) = set_prog (erase s) t r.
+Proof. unfold set_prog. rewrite erase_set_thread, cur_erase. reflexivity. Qed.
+Definition retE (s : st) (t : nat) : st :=
+  set_thread s t {| prog := prog (cur s t); tpc := PIdle; t_lin := None |}.
+Lemma erase_ret s t r : erase (ret s t r) = retE (erase s) t.
+Proof.
+  unfold ret, retE. rewrite cur_erase. simpl.
+  destruct (t_lin (cur s t)) as [r'|]; [destruct (res_eqb r r')|];
+    rewrite ?erase_with_linbad, erase_set_thread; reflexivity.
+Qed.
+
+(* ghost-only operations vanish *)
+Definition ghost_only (f : st -> st * res) : Prop := forall s, erase (fst (f s)) = erase s.
+Lemma erase_set_abs s l v : erase (set_abs s l v) = erase s.
+Proof.
+  unfold set_abs, upd_list, with_lists, erase; simpl. f_equal.
+  rewrite map_set_nth. simpl.
+  assert (E : forall n (ls : list lrec) r, er_l r = er_l (nth n ls lnil) -> set_nth n (er_l r) (map er_l ls) = map er_l ls).
+  { induction n; intros [|y ls] r H; simpl in *; auto; [now rewrite H|]. f_equal. now apply IHn. }
+  apply (E l (lists s) (lr_abs v (lst s l))). reflexivity.
+Qed.
+Lemma erase_upd_alatch s l b : erase (upd_list s l (lr_alatch b)) = erase s.
+Proof.
+  unfold upd_list, with_lists, erase; simpl. f_equal. rewrite map_set_nth.
+  assert (E : forall n (ls : list lrec) r, er_l r = er_l (nth n ls lnil) -> set_nth n (er_l r) (map er_l ls) = map er_l ls).
+  { induction n; intros [|y ls] r H; simpl in *; auto; [now rewrite H|]. f_equal. now apply IHn. }
+  apply (E l (lists s) (lr_alatch b (lst s l))). reflexivity.
+Qed.
+Lemma ghost_only_push_back b : ghost_only (spec_push_back b).
+Proof. intros s. apply erase_set_abs. Qed.
+Lemma ghost_only_push_front b : ghost_only (spec_push_front b).
+Proof. intros s. unfold spec_push_front. destruct (l_alatch (lst s 0)); simpl; [reflexivity|apply erase_set_abs]. Qed.
+Lemma ghost_only_pop l : ghost_only (spec_pop l).
+Proof. intros s. unfold spec_pop. destruct (abs s l); simpl; [reflexivity|apply erase_set_abs]. Qed.
+Lemma ghost_only_remove a : ghost_only (spec_remove a).
+Proof.
+  intros s. unfold spec_remove. destruct (existsb _ (lists s)); simpl; [|reflexivity].
+  unfold erase; simpl. f_equal. rewrite map_map. apply map_ext. intros r. reflexivity.
+Qed.
+Lemma ghost_only_latch_drain t : ghost_only (spec_latch_drain t).
+Proof.
+  intros s. unfold spec_latch_drain. destruct (l_alatch (lst s 0)); simpl; [reflexivity|].
+  now rewrite erase_upd_alatch, !erase_set_abs.
+Qed.
+Lemma ghost_only_unlatch : ghost_only spec_unlatch.
+Proof. intros s. unfold spec_unlatch. destruct (l_alatch (lst s 0)); simpl; [apply erase_upd_alatch|reflexivity]. Qed.
+Lemma ghost_only_is_latched : ghost_only spec_is_latched.
+Proof. intros s. reflexivity. Qed.
+#[local] Hint Resolve ghost_only_push_back ghost_only_push_front ghost_only_pop ghost_only_remove
+  ghost_only_latch_drain ghost_only_unlatch ghost_only_is_latched : keep.
+Lemma erase_lin s t f : ghost_only f -> erase (lin s t f) = erase s.
+Proof.
+  intros G. unfold lin. specialize (G s). destruct (f s) as [s1 r]. simpl in G.
+  assert (A : erase (set_thread s1 t {| prog := prog (cur s1 t); tpc := tpc (cur s1 t); t_lin := Some r |}) = erase s1).
+  { rewrite erase_set_thread. unfold set_thread, with_thr, erase; simpl. f_equal.
+    assert (E : forall n (ts : list thread) th, er_t th = er_t (nth n ts tnil) -> set_nth n (er_t th) (map er_t ts) = map er_t ts).
+    { induction n; intros [|y ts] th H; simpl in *; auto; [now rewrite H|]. f_equal. now apply IHn. }
+    apply E. reflexivity. }
+  destruct (t_lin (cur s1 t)); rewrite ?erase_with_linbad, A; exact G.
+Qed.
+
+Definition er_out (o : option (st * list ev)) : option (st * list ev) :=
+  match o with Some (s', e) => Some (erase s', e) | None => None end.
+
+#[local] Hint Rewrite erase_idem erase_upd_node erase_set_link_val erase_set_link_lock erase_unlock
+  erase_set_self erase_with_uaf erase_with_crash erase_with_linbad erase_with_embad
+  erase_touch_node erase_touch_link erase_touch_obj erase_set_pc erase_set_prog erase_ret : er.
+#[local] Hint Rewrite erase_lin using (solve [auto with keep]) : er.
+#[local] Hint Rewrite erase_upd_list using (solve [auto with keep]) : er.
+
+Ltac obs :=
+  rewrite ?lst_erase, ?node_erase, ?link_val_erase, ?link_lock_erase, ?is_locked_erase,
+    ?get_self_erase, ?valid_link_erase, ?cur_erase, ?valid_node_erase, ?fresh_erase;
+  cbn [er_l er_t l_head l_lock l_sself l_lself prog tpc].
+Ltac fin_er := cbn [er_out]; try reflexivity; f_equal; f_equal; autorewrite with er; reflexivity.
+Ltac cases :=
+  repeat match goal with
+         | |- context [match ?x with _ => _ end] =>
+             lazymatch x with
+             | context [erase] => fail
+             | _ => destruct x eqn:?
+             end
+         end.
+
+Lemma acquire_erase s t k :
+  acquire (erase s) t k =
+  match acquire s t k with Some (v, s1) => Some (v, set_link_lock (erase s) k (Some t)) | None => None end.
+Proof.
+  unfold acquire. rewrite valid_link_erase, link_lock_erase, link_val_erase.
+  destruct (valid_link s k); [|reflexivity]. destruct (link_lock s k); reflexivity.
+Qed.
+Lemma acquire_state s t k v s1 : acquire s t k = Some (v, s1) -> s1 = set_link_lock s k (Some t).
+Proof.
+  unfold acquire. destruct (valid_link s k); [|discriminate]. destruct (link_lock s k); [discriminate|].
+  intros H; inversion H; reflexivity.
+Qed.
+
+Lemma start_erase s t o : er_out (start (erase s) t o) = er_out (start s t o).
+Proof.
+  destruct o; unfold start, do_pr0; rewrite ?acquire_erase; obs.
+  all: cases; try (match goal with E : acquire _ _ _ = Some _ |- _ => apply acquire_state in E; subst end);
+    try fin_er.
+  all: destruct (empty_ok (erase s) _); fin_er.
+Qed.
+
+Theorem step_erase t s : er_out (step t (erase s)) = er_out (step t s).
+Proof.
+  unfold step. unfold erase at 1. cbn [thr]. rewrite nth_error_map.
+  destruct (nth_error (thr s) t) as [th|]; [|reflexivity]. cbn [option_map er_t tpc prog].
+  destruct (tpc th).
+  1: { destruct (prog th) as [|o r]; [reflexivity|].
+       rewrite <- erase_set_prog. apply start_erase. }
+  1: reflexivity.
+  all: unfold do_pr0; rewrite ?acquire_erase; obs.
+  all: cases; try (match goal with E : acquire _ _ _ = Some _ |- _ => apply acquire_state in E; subst end);
+    try fin_er.
+Qed.
+
+(* the specification ghosts do not influence what the model does: two states that agree up to
+   them take the same steps with the same events, for every schedule *)
+Lemma step_erase_eqv t a b : erase a = erase b -> er_out (step t a) = er_out (step t b).
+Proof. intros H. rewrite <- (step_erase t a), <- (step_erase t b), H. reflexivity. Qed.
+
+Theorem run_erase sched a b tr :
+  erase a = erase b ->
+  erase (fst (run step sched (a, tr))) = erase (fst (run step sched (b, tr))) /\
+  snd (run step sched (a, tr)) = snd (run step sched (b, tr)).
+Proof.
+  revert a b tr. induction sched as [|t sched IH]; intros a b tr H; [split; [exact H|reflexivity]|].
+  rewrite !run_cons. unfold step_conf. cbn [fst snd].
+  pose proof (step_erase_eqv t a b H) as E.
+  destruct (step t a) as [[a' ea]|], (step t b) as [[b' eb]|]; cbn [er_out] in E; try discriminate.
+  - apply some_pair_inv in E. destruct E as [E1 E2]. rewrite E2. apply IH. symmetry. exact E1.
+  - apply IH. assumption.
+Qed.
+
 (* Outside the interface the soundness argument of try_lock_checking breaks (ABA on the value
    of lk): push_back reads head_ = &sentinel_latch_ while the list is latched, the list is
    unlatched (its check of sentinel_.self passes) and latched again, and the CAS succeeds on the
@@ -1057,6 +1275,8 @@ Qed.
      lock_discipline / lock_exclusive   (1c) the lock word of every link agrees with the program
                                         points; a link is never held by two threads; held links
                                         are links of the memory; no self-deadlock on a link.
+     step_erase / run_erase             the specification ghosts (abstract lists, latch, t_lin,
+                                        linbad, embad) never influence a step or an event.
      no_access_after_hand_back_refuted, no_access_after_hand_back_refuted_event   (5) witnesses.
      empty_linearizable_refuted         empty() is not linearisable (its guarantee is the flag
                                         embad, see AtomicListDefs.v).
